@@ -5,6 +5,7 @@
 import FerretVerif.Model.Num
 import FerretVerif.Drv.Limbs
 import FerretVerif.Drv.Literal
+import FerretVerif.Drv.Layout
 
 open FerretVerif
 
@@ -39,4 +40,5 @@ def main (args : List String) : IO UInt32 := do
   | ["lossless"] => eachLine cmdLossless; return 0
   | ["limbs"] => eachLine cmdLimbs; return 0
   | ["literal"] => eachLine cmdLiteral; return 0
+  | ["layout"] => eachLine cmdLayout; return 0
   | _ => IO.eprintln s!"fvdriver: unknown subcommand {args}"; return 2
